@@ -404,7 +404,9 @@ inline std::string make_char_constant(
     const length_t type_length,
     const source_location& location)
 {
-    if(constant_value.size() > 1)
+    // types with `length != 1` are arrays even if their value has a single
+    // character
+    if((constant_value.size() > 1) || (type_length != 1))
     {
         return utils::make_string_constant(
             constant_value, type_length, location);
